@@ -323,6 +323,13 @@ def apply_case(repo, c):
         s = open(p).read()
     except OSError:
         return False
+    if 'patch' in c:
+        import subprocess
+        pf = os.path.join(os.path.dirname(os.path.abspath(__file__)), 'patches', c['patch'])
+        r = subprocess.run(['patch', '-p1', '-s', '-i', pf], cwd=repo, stdout=subprocess.PIPE, stderr=subprocess.STDOUT)
+        if r.returncode != 0: return False
+        if 'old' not in c and 'subs' not in c: return True
+        s = open(p).read()
     if 'subs' in c:
         for rx, rep in c['subs']:
             s2, n = re.subn(rx, rep, s)
@@ -408,4 +415,24 @@ CASES += [
 ''', checks=['C18']),
  dict(id='graph-complete-flag-swapped', kind='fire', file=G, old='generate_graph(vertices, edges, args.undirected)?', new='generate_graph(vertices, edges, !args.undirected)?', expect={'C18': 'generate_graph'}),
  dict(id='graph-random-edges-off', kind='fire', file=G, old='generate_graph(args.vertices.unwrap(), args.edges.unwrap(), args.undirected)?', new='generate_graph(args.vertices.unwrap(), args.edges.unwrap() + 1, args.undirected)?', expect={'C18': 'random graph call'}),
+]
+
+
+# behaviour-preserving maintenance patches written by independent sub-agents (selftest/patches/bn*-NN.diff, notes in bn*-notes.json):
+# every check must stay silent on each of them.  They are not used as thorough-tier controls (control=False): too many runs.
+_BN = {1: ['C01', 'C02', 'C03', 'C04', 'C05', 'C06', 'C07', 'C09', 'C12', 'C13', 'C19', 'C20'],
+       2: ['C01', 'C06', 'C08', 'C09', 'C10', 'C11', 'C12', 'C14'],
+       3: ['C07', 'C09', 'C10', 'C11', 'C12', 'C14'],
+       4: ['C15', 'C16', 'C17', 'C18']}
+_BN_FILE = {1: B, 2: P, 3: M, 4: Q}
+for _k, _checks in _BN.items():
+    for _n in range(1, 9):
+        CASES.append(dict(id='bn%d-%02d' % (_k, _n), kind='silent', file=_BN_FILE[_k], patch='bn%d-%02d.diff' % (_k, _n), checks=_checks, control=False))
+
+CASES += [
+ # a mutant written in the style of one of those refactors: the shared helper of bn4-02, one diagonal family one cell short
+ dict(id='queens-helper-short-diagonal', kind='fire', file=Q, patch='bn4-02.diff', old='(0..=i).map(|j| i + (j * (n - 1)))', new='(0..i).map(|j| i + (j * (n - 1)))', expect={'C15': 'N'}, control=False),
+ dict(id='queens-helper-wrong-relation', kind='fire', file=Q, patch='bn4-02.diff', old='(0..n).map(|j| i + j * n), "= 1"', new='(0..n).map(|j| i + j * n), "<= 1"', expect={'C15': 'N'}, control=False),
+ dict(id='bddio-helper-wrong-filter', kind='fire', file=IO, patch='bn2-07.diff', old='|| (child == &BDD::False && self.filter == TruthTableEntry::False)', new='|| (child == &BDD::False && self.filter == TruthTableEntry::True)', expect={'C14': 'X2'}, control=False),
+ dict(id='parserio-helper-wrong-child', kind='fire', file=PIO, patch='bn2-06.diff', old='edges.push((i, "R".to_string(), self.position_of(r)));', new='edges.push((i, "R".to_string(), self.position_of(l)));', expect={'C14': 'X6'}, control=False),
 ]
